@@ -1,0 +1,14 @@
+//go:build !verif
+
+// Package verif contains tracing hooks used by external verification tooling.
+// Without the build tag `verif` every function is an empty stub.
+package verif
+
+// Enabled reports whether the hooks are compiled in.
+const Enabled = false
+
+// Emit records an event (no-op).
+func Emit(ev string, kv ...any) {}
+
+// Yield perturbs the goroutine schedule at a named point (no-op).
+func Yield(point string) {}
